@@ -272,7 +272,7 @@ pub fn escape_table(cx: &mut Ctx, refd: &serde_json::Value, rule: &str) {
             // Interpreted, not matched: the body is evaluated by the checker's own interpreter on a designed set of
             // digit strings (every hex digit at every position with the others 0, the surrogate / scalar-range
             // boundaries, a non-hex character and the end of input at every position).
-            let (ok, why) = match unicode_literal_semantics(pu) {
+            let (ok, why) = match unicode_literal_semantics(pu, cx.tier == "thorough") {
                 Ok(n) => {
                     cx.unit("digit strings on which parse_unicode_literal was interpreted", n);
                     (true, String::new())
@@ -289,7 +289,7 @@ pub fn escape_table(cx: &mut Ctx, refd: &serde_json::Value, rule: &str) {
 }
 
 /// Evaluate `parse_unicode_literal(n)` with the checker's interpreter; `self.next_char()` reads a scripted input.
-fn unicode_literal_semantics(pu: &syn::ImplItemFn) -> Result<usize, String> {
+fn unicode_literal_semantics(pu: &syn::ImplItemFn, exhaustive: bool) -> Result<usize, String> {
     use crate::eval::{Machine, V};
     let pname = pu.sig.inputs.iter().nth(1).and_then(|a| if let syn::FnArg::Typed(pt) = a { Some(sm::tsc(&pt.pat)) } else { None }).ok_or("no length parameter")?;
     // every error the function constructs must be the unicode error
@@ -327,6 +327,16 @@ fn unicode_literal_semantics(pu: &syn::ImplItemFn) -> Result<usize, String> {
                 let expect = if v > 0x10FFFF { None } else if (0xD800..=0xDFFF).contains(&v) { Some(0xFFFD) } else { Some(v) };
                 cases.push((n, hex(v, n), expect));
             }
+        }
+    }
+    if exhaustive {
+        // thorough tier: every 2-digit and every 4-digit hexadecimal escape
+        for v in 0u32..=0xFF {
+            cases.push((2, hex(v, 2), Some(v)));
+        }
+        for v in 0u32..=0xFFFF {
+            let expect = if (0xD800..=0xDFFF).contains(&v) { Some(0xFFFD) } else { Some(v) };
+            cases.push((4, hex(v, 4), expect));
         }
     }
     let total = cases.len();
